@@ -162,14 +162,15 @@ REG["C13"] = {
     "scope": "PARTIAL — only the last sentence of the property: 'The only transformations are the documented ones: every CR LF pair becomes LF unless keep_crlf is set (for outputs of "
              "any size), and ANSI escape sequences are removed only when strip_ansi_escaping is set.' newline::replace_crlf(bytes) == drop_cr(bytes) (left to right, a CR directly "
              "followed by LF is dropped, nothing else changes; recursion terminates: decreases bytes.len()); TestCase::render_output == rendered (CRLF step skipped iff keep_crlf == Some(true); "
-             "ANSI stripping applied iff strip_ansi_escaping == Some(true)).",
+             "ANSI stripping applied iff strip_ansi_escaping == Some(true)). Where they are applied: the expression that builds the Output of SubprocessRunner::run (extracted with @expr tail) puts what the process wrote to stdout into "
+             "Output.stdout and what it wrote to stderr into Output.stderr (not swapped), each through render_output, and passes the exit status through.",
     "assumptions": [
         "R18/R36: Cow<[u8]> modelled as Vec<u8> with the same content; [a, b].concat() concatenates; R35: windows(2).position(..) as an inline search loop; byte-string const CRLF as a function",
         "strip_ansi_escapes::strip is uninterpreted (strip_ansi)",
         "stack depth of the recursion (one frame per CR LF pair) and running time are outside the contract",
     ],
     "not_decided": ["that the shell receives the expression verbatim (template + bash)", "stdout/stderr separation and merge order (subprocess, pipes)",
-                    "per-test-case attribution of output in the single-script executor (divider parsing)", "exit code capture", "where render_output is applied (subprocess_runner)"],
+                    "per-test-case attribution of output in the single-script executor (divider parsing)", "exit code capture (how the status is obtained from the process)", "the single-script (Cram) executor's own path (divider parsing)"],
 }
 
 REG["C07"] = {
